@@ -69,6 +69,8 @@ class PhaseShift():
         for i, dim in enumerate(self.periodic):
             points_t[:, dim] = (points_t[:, dim] + (-1 if inverse else +1) *
                                 (-self.centers[i] + 0.5)) % 1
+            # The modulo of a tiny negative number rounds to exactly 1.
+            points_t[:, dim] = points_t[:, dim] % 1
         return points_t
 
     def write(self, group):
